@@ -18,7 +18,12 @@ RULE = ("one case = a history of create / hand-made recording / fill / save / re
         "shared-sub-object probe (F07c), file-path collision (hand-made ids, observation), asked-early (an id is asked for - "
         "full and metadata-only - before its recording is created / filled / saved and again after the save, through the "
         "saving cassette object or through a second object over the same directory / bucket + prefix that lives for the "
-        "whole history: 6 deterministic probes + a random stream); non-trivial = at least one "
+        "whole history: 6 deterministic probes + a random stream), long (deterministic probes per cassette kind: two recordings are "
+        "saved, then a run of 550 other recordings (`bulk`: create + save on the same cassette), the two are fetched, one is "
+        "saved again with new content and a third is saved, 560 more recordings follow, then all three, the first and the last "
+        "of the others and never-saved ids are fetched, full and metadata-only - 1100+ saves between a save and its fetch; the "
+        "number of stored names is compared after every call instead of the names; the 1100-recording S3 history runs without the "
+        "model in the quick tier, a 316-recording one with it); non-trivial = at least one "
         "successful save of a non-empty recording that is fetched afterwards; distinct = distinct case")
 ASSUMPTIONS = ["json.loads(json.dumps(j)) == j on the well-formed JSON trees jwf that the serializer produces (premise of the "
                "oracle-parametric theorems, restricted to jwf because no function satisfies it on all json terms; a THEOREM "
@@ -639,7 +644,7 @@ def search_harder(rng, bad_cases):
 
 MANIFEST = dict(
     design_ref='6/C07',
-    text="Coq theorems for the three cassette models (in-memory ordered id->text map, file-based directory with path id = replace('/','_') + '.json', S3 full+metadata objects over the bucket model): for ANY prior store state, after save r and any later saves of other ids, get returns r's id, key set, data and metadata up to canonical dict order, and the metadata-only fetch agrees, for all key texts and all values of the serializer's faithful domain (rec_wf) whose floats carry float.__repr__ texts and whose bytes are byte lists (rec_leaves_ok); file paths are injective on created ids (collision of hand-made ids refuted with a witness); a never-saved id answers NoSuchRecording on all three; on S3 the data key '_metadata' is lost (refuted with a witness, known finding F07b). Model tied to /repo on every run by histories of create/save/re-save/get/get_metadata (and client scribbles on handed-out objects; ids asked for before they are saved and afterwards, also through a second cassette object over the same store) on the real cassettes; direct predicate: fetched == saved, metadata-only fetch agrees, unknown id raises NoSuchRecording. Shared sub-objects are covered by the direct predicate only (pyval is tree shaped); one shape is a known finding (F07c).",
+    text="Coq theorems for the three cassette models (in-memory ordered id->text map, file-based directory with path id = replace('/','_') + '.json', S3 full+metadata objects over the bucket model): for ANY prior store state, after save r and any later saves of other ids, get returns r's id, key set, data and metadata up to canonical dict order, and the metadata-only fetch agrees, for all key texts and all values of the serializer's faithful domain (rec_wf) whose floats carry float.__repr__ texts and whose bytes are byte lists (rec_leaves_ok); file paths are injective on created ids (collision of hand-made ids refuted with a witness); a never-saved id answers NoSuchRecording on all three; on S3 the data key '_metadata' is lost (refuted with a witness, known finding F07b). Model tied to /repo on every run by histories of create/save/re-save/get/get_metadata (and client scribbles on handed-out objects; ids asked for before they are saved and afterwards, also through a second cassette object over the same store; long histories with 1100+ saves of other recordings between the save of a recording and its fetch) on the real cassettes; direct predicate: fetched == saved, metadata-only fetch agrees, unknown id raises NoSuchRecording. Shared sub-objects are covered by the direct predicate only (pyval is tree shaped); one shape is a known finding (F07c).",
     note='Trusted: Coq kernel + vm_compute; hand-written models of jsonpickle 0.9.3 (flatten/restore) and of the three cassettes; json.loads o json.dumps = id on well-formed trees, zlib and quopri round trips are premises of the oracle-parametric theorems and theorems for the concrete parser / simple quoted-printable codec / identity zlib (C07_roundtrip_*_concrete: no oracle premise); fake bucket; scratch directory. Known findings F07b (S3 reserved key) and F07c (py/id numbering after an object state) are reported as KNOWN-FINDING.',
     technique='Coq proof (serializer round trip + store algebra) + history correspondence by vm_compute + direct fetched==saved predicate',
 )
